@@ -6,6 +6,11 @@ TECH = "bounded symbolic execution of the real acnportal functions (symx engine 
 NOTE = ("Trusted base: CPython 3.12, numpy object-array semantics, pandas alignment on object data, z3 5.1; Python floats are modelled as exact reals "
         "(IEEE rounding outside the claim); the environment stubs listed in evidence.assumptions; bounds listed in evidence.coverage.bounds.")
 CLAIMED = {
+ "C01": "Bounded symbolic model checking of the real Simulator.run()/EventQueue/ChargingNetwork/EVSE code: arrival, departure, estimated-departure and recompute timestamps are symbolic integers, so every interleaving inside the bound (<=3 sessions, horizon<=4, 1-2 stations, 4 scheduler kinds, 3 max_recompute settings) is one solver-decided path; obligations (exactly-once plug/unplug, time/precedence order, connected exactly on [arrival,departure), termination one period after the last event) are discharged by z3 on every path. No induction over the horizon is claimed.",
+ "C02": "One-step inductive ledger obligation (arbitrary EV+battery state satisfying charge-init==energy_delivered; all parameters symbolic) for all battery models, plus whole-run obligations on the real Simulator with symbolic event times, pilots (also to vacant stations) and battery parameters: per-session energy = sum(rate*V*T) = battery gain, zero rate when vacant, peak, aggregate current/power, total energy.",
+ "C04": "Bounded symbolic model checking of Simulator._update_schedules/_increase_width/update_pilots: every schedule entry is a symbolic real, the shape of each submitted schedule (empty/subset/all, length 1-3, insertion order, beyond the horizon incl. the last period) is forked at every invocation; the oracle is a reference overlay built from the statement; malformed schedules must raise and leave the registry dump valid-equal.",
+ "C05": "Bounded symbolic model checking with a recording scheduler querying the real Interface (invocation rule vs symbolic event times and max_recompute in {None,1,2,3}; observed sessions, energies, previous rates/pilots/peak, datetime, infrastructure) and a two-run isolation harness (clean vs in-place-mutating scheduler on the same symbolic inputs; trajectories, network dump and later views valid-equal).",
+ "C06": "Symbolic execution of the three real feasibility checkers on symbolic schedules, limits, tolerances (and symbolic coefficients for n=2): on every path the verdict is sandwiched between the phasor definition with the limit scaled by (1-1e-9) and (1+1e-9), written as polynomial inequalities and decided by z3 (nonlinear real arithmetic); interface==network; linear mode conservative on both implementations; constraint-free networks accept everything and run the real schedulers.",
  "C03": "Inductive one-step obligations (arbitrary valid battery state, all parameters symbolic reals) for ideal / two-stage continuous / stepwise x noise on/off, discharged by z3 on every path of the real charge(); plus constructor/reset refusal and the EVSE->EV->Battery chain. Bounded model checking is the right level: the property is a universally quantified arithmetic fact about one step of a small state machine.",
 }
 NA_REASON = "check not built yet (work in progress in this session; see DESIGN.md section 4 for the planned harness)"
